@@ -391,10 +391,29 @@ Status findSequencesOnDisk(FileSequences &seqs,
                   strings::ends_with(name, match.ext))) {
                 continue;
             }
+            // the basename and ext may not overlap
+            if (name.length() < match.base.length() + match.ext.length()) {
+                continue;
+            }
             match.range = name.substr(
                     match.base.length(),
                     name.length()-match.base.length()-match.ext.length());
-            // test
+            // and there has to be a frame number between them
+            {
+                const std::string &r = match.range;
+                size_t p = (!r.empty() && r[0] == '-') ? 1 : 0;
+                bool isFrame = p < r.size() &&
+                        r.find_first_not_of("0123456789", p) == std::string::npos;
+                if (isFrame) {
+                    errno = 0;
+                    std::strtol(r.c_str(), nullptr, 10);
+                    isFrame = (errno != ERANGE);
+                    errno = 0;
+                }
+                if (!isFrame) {
+                    continue;
+                }
+            }
 
         } else {
             // otherwise, we need to do some tests on the path and figure
